@@ -210,6 +210,7 @@ func runTR(c Case, ctl *sched.Ctl, mon *monitor, wg *sync.WaitGroup) {
 		ctl.Go(tid, func() {
 			defer wg.Done()
 			for i, op := range script {
+				i := i
 				panics := op[1] == 1
 				task := func() {
 					id := nthreads + int(atomic.AddInt32(&counter, 1)) - 1
@@ -243,14 +244,13 @@ func runTR(c Case, ctl *sched.Ctl, mon *monitor, wg *sync.WaitGroup) {
 		})
 	}
 	if c.Free {
-		wg.Add(1)
-		go func() {
-			defer wg.Done()
-			time.Sleep(200 * time.Microsecond)
-			tr.Wait()
-		}()
+		// Wait only after every Schedule has returned (WaitGroup.Add at zero concurrent with
+		// Wait is a misuse of sync.WaitGroup, not part of C05)
+		postRun = tr.Wait
 	}
 }
+
+var postRun func()
 
 func runPL(c Case, ctl *sched.Ctl, mon *monitor, wg *sync.WaitGroup) {
 	timex.SetFakeNow(1000000)
@@ -400,7 +400,14 @@ func runCase(c Case) (out Out) {
 	}
 	if c.Free {
 		done := make(chan struct{})
-		go func() { wg.Wait(); close(done) }()
+		go func() {
+			wg.Wait()
+			if postRun != nil {
+				postRun()
+				postRun = nil
+			}
+			close(done)
+		}()
 		select {
 		case <-done:
 		case <-time.After(20 * time.Second):
